@@ -147,8 +147,10 @@ static bool judge(report& r, R const& res, expect<T> const& e, bool exact, bool 
         L const want = (L(res.sum_of_squares()) / n - ev * ev) / (n - 1);
         L const tol = 16 * eps * (L(res.sum_of_squares()) / n + ev * ev) / (n - 1);
         if (!(std::fabs(L(res.variance()) - want) <= tol)) return bad("variance", "variance() = " + vf::dec(L(res.variance())) + ", (sumsq/N - E^2)/(N-1) = " + vf::dec(want));
-        if (want > tol && !(std::fabs(L(res.error()) - std::sqrt(want)) <= 16 * eps * std::sqrt(want) + std::sqrt(tol) * 1e-3L))
-            return bad("error", "error() = " + vf::dec(L(res.error())) + ", sqrt(variance) = " + vf::dec(std::sqrt(want)));
+        // error() is documented as the square root of variance(): compare with the accessor's own value, in T's precision
+        L const var = res.variance();
+        if (var > 0 && !(std::fabs(L(res.error()) - std::sqrt(var)) <= 4 * eps * std::sqrt(var)))
+            return bad("error", "error() = " + vf::dec(L(res.error())) + ", sqrt(variance()) = " + vf::dec(std::sqrt(var)));
     }
     if (with_dist)
     {
